@@ -148,6 +148,36 @@ theorem irfftn_rfftn_ok (conj : R → R) (ρs : List (Root R)) (f : CF R) (hf : 
   simp only [if_true, back_labels, back_map]
   rfl
 
+omit [Zero R] [One R] [Add R] [Mul R] in
+theorem half_none_counts (m : Mesh) (h : m.nAt (m.ndim - 1) % 2 = 0 ∨ m.nAt (m.ndim - 1) = 1) :
+    (if m.nAt (m.ndim - 1) = 1 then m.n else setAt m.n (m.ndim - 1) (m.nAt (m.ndim - 1) / 2 * 2)) = m.n := by
+  by_cases h1 : m.nAt (m.ndim - 1) = 1
+  · rw [if_pos h1]
+  · rw [if_neg h1]
+    have e : m.nAt (m.ndim - 1) / 2 * 2 = m.nAt (m.ndim - 1) := by omega
+    rw [e]
+    exact setAt_getD_self m.n (m.ndim - 1)
+
+/-- `Field.irfftn()` (no shape) of `Field.rfftn` restores the field when the last count is even or 1 -/
+theorem irfftn_rfftn_ok_default (conj : R → R) (ρs : List (Root R)) (f : CF R) (hf : CFInv f)
+    (h : f.mesh.nAt (f.mesh.ndim - 1) % 2 = 0 ∨ f.mesh.nAt (f.mesh.ndim - 1) = 1) :
+    irfftn conj ρs { mesh := kMesh f.mesh true, nvdim := f.nvdim, data := rfftnArr ρs f.nvdim f.data,
+                     vdims := fwdLabels f.vdims, vmap := fwdMap f.vmap, unit := f.unit } none
+      = .ok { mesh := originMesh f.mesh f.mesh.n, nvdim := f.nvdim,
+              data := irfftnArr conj ρs f.nvdim f.mesh.n (rfftnArr ρs f.nvdim f.data),
+              vdims := f.vdims, vmap := f.vmap, unit := f.unit } := by
+  have hshape : (rfftnArr ρs f.nvdim f.data).shape = (kMesh f.mesh true).n := by
+    rw [kMesh_n_half f.mesh hf.mesh, ← hf.shape]; rfl
+  have hg := fwd_inv f hf (kMesh f.mesh true) (kMesh_inv f.mesh true hf.mesh) _ hshape
+  unfold irfftn
+  simp only
+  rw [mesh_roundtrip_half_none f.mesh hf.mesh, half_none_counts f.mesh h]
+  simp only
+  rw [finish_ok_of_inv _ hg _ _ true (by rfl)
+    (fun vs' h e => strip_fwd_distinct f.vdims (cfinv_nodup f hf) vs' h (by simp))]
+  simp only [if_true, back_labels, back_map]
+  rfl
+
 end
 
 end DFV.C11
